@@ -26,6 +26,12 @@ impl GraphSpace {
     pub fn small() -> Self {
         GraphSpace { max_nodes: 2, max_rels: 2, node_kinds: kinds5(), rel_kinds: rel3() }
     }
+    /// mixed integer / float property values for the aggregating queries: <= 3 nodes, <= 3 :R
+    /// relationships (a partial sum that turns float half-way needs a node with two neighbours, a
+    /// second node with the same key needs one more: 3 nodes, 3 relationships with self-loops)
+    pub fn numeric() -> Self {
+        GraphSpace { max_nodes: 3, max_rels: 3, node_kinds: vec![(vec!["A"], Some(LV::Int(1))), (vec!["A"], Some(LV::f(2.5))), (vec!["B"], Some(LV::f(2.5)))], rel_kinds: vec![("R", None)] }
+    }
     /// <= 3 nodes, <= 2 relationships
     pub fn wide() -> Self {
         GraphSpace { max_nodes: 3, max_rels: 2, node_kinds: kinds5(), rel_kinds: rel3() }
@@ -420,6 +426,11 @@ pub fn tails(t: &Tmpl, rich: bool) -> Vec<(String, Vec<Clause>)> {
             ret("a_collect_bp", Proj { items: vec![item(var(a), None), item(agg(AggF::Collect, false, Some(bp())), Some("c"))], ..Default::default() });
             ret("count_distinct_b", Proj { items: vec![item(agg(AggF::Count, true, Some(var(b))), Some("c"))], ..Default::default() });
             ret("a_sum_bp", Proj { items: vec![item(var(a), None), item(agg(AggF::Sum, false, Some(bp())), Some("c"))], ..Default::default() });
+            // grouped by a PROPERTY of one variable: distinct nodes with equal key values fall into one
+            // group, and their partial aggregates have to be merged (seeded change C01b)
+            ret("ap_sum_bp", Proj { items: vec![item(ap(), Some("k")), item(agg(AggF::Sum, false, Some(bp())), Some("s"))], ..Default::default() });
+            ret("ap_avg_count_bp", Proj { items: vec![item(ap(), Some("k")), item(agg(AggF::Avg, false, Some(bp())), Some("m")), item(agg(AggF::Count, false, Some(bp())), Some("c"))], ..Default::default() });
+            ret("ap_min_max_bp", Proj { items: vec![item(ap(), Some("k")), item(agg(AggF::Min, false, Some(bp())), Some("lo")), item(agg(AggF::Max, false, Some(bp())), Some("hi"))], ..Default::default() });
             ret("order_2keys", Proj { items: vec![item(ap(), Some("k")), item(bp(), Some("l"))], order: vec![(var("k"), false), (var("l"), true)], ..Default::default() });
             ret("b_count_a_order_limit", Proj { items: vec![item(var(b), None), item(agg(AggF::Count, false, Some(var(a))), Some("c"))], order: vec![(var("c"), true)], limit: Some(lit_i(1)), ..Default::default() });
             ret("distinct_ab", Proj { distinct: true, items: vec![item(var(a), None), item(var(b), None)], ..Default::default() });
